@@ -197,6 +197,8 @@ def run_c10(out, exe, tier, res):
     rel["samples"] = []
     for v in rel.get("violations", []):
         v["desc"] = "[release profile] " + v.get("desc", "")
+        if isinstance(v.get("replay"), dict):
+            v["replay"]["build_profile"] = "release"
     rel_evals = rel.get("evaluations", 0)
     # evidence: first process in full, second contributes its counters
     for rep in reps:
